@@ -431,7 +431,7 @@ func main() {
 	seedList := fs.String("seeds", "", "comma-separated explicit seeds (instead of the VERIF_SEED-derived range)")
 	fs.Parse(os.Args[3:])
 	seed, _ := strconv.ParseInt(envOr("VERIF_SEED", "1"), 10, 64)
-	race := prop == "C10"
+	race := prop == "C10" || os.Getenv("VERIF_FORCE_RACE") != "" // VERIF_FORCE_RACE: diagnostic runs only
 	switch mode {
 	case "check":
 		for _, x := range strings.Split(*seedList, ",") {
